@@ -106,7 +106,8 @@ macro_rules! hom_a2 {
 hom_a2!(Affine2);
 hom_a2!(DAffine2);
 
-const MAGS: [f64; 5] = [1e-3, 0.5, 1.0, 2.0, 1e3];
+// magnitudes over the stated range plus two within 1e-4 of 1 (where a decomposition might be tempted to snap)
+const MAGS: [f64; 7] = [1e-3, 0.5, 0.99995, 1.0, 1.00003, 2.0, 1e3];
 const TRANS: [[f64; 3]; 5] = [[0.0, 0.0, 0.0], [1.0, -2.0, 3.0], [1e3, 0.25, -7.5], [-1e-3, 1e-3, 0.5], [12345.678, -0.001, 99.5]];
 
 fn bound_trs(n: usize, want: &Mx, k: f64, eps: f64, smax: &[f64]) -> Vec<f64> {
@@ -127,11 +128,16 @@ macro_rules! srt3 {
         let rot = rot_family(if $rep.thorough() { 1 } else { 0 });
         let nsub = if $rep.thorough() { 256 } else { 48 };
         let step = (rot.len() / nsub).max(1);
-        let sub: Vec<[f64; 4]> = rot.iter().step_by(step).copied().collect();
+        // a strided cut of the family plus all of its members within 1e-2 rad of the identity and of a half-turn
+        let mut sub: Vec<[f64; 4]> = rot.iter().step_by(step).copied().collect();
+        for q in rot.iter() {
+            let w = q[3].abs() / (q[0] * q[0] + q[1] * q[1] + q[2] * q[2] + q[3] * q[3]).sqrt();
+            if (w > 0.99998 || w < 5.1e-3) && !sub.contains(q) { sub.push(*q); }
+        }
         let nr = sub.len() as u64;
         let subr = &sub;
-        $rep.sweep(&format!("{}/3-D SRT/1000 scales x {nr} rotations x 5 translations", stringify!($S)), 1000 * nr * 5, |idx, acc| {
-            let d = digits(idx, [5, 5, 5, 8, nr, 5]);
+        $rep.sweep(&format!("{}/3-D SRT/2744 scales x {nr} rotations x 5 translations", stringify!($S)), 2744 * nr * 5, |idx, acc| {
+            let d = digits(idx, [7, 7, 7, 8, nr, 5]);
             let sf = [MAGS[d[0]] * if d[3] & 1 == 1 { -1.0 } else { 1.0 }, MAGS[d[1]] * if d[3] & 2 == 2 { -1.0 } else { 1.0 }, MAGS[d[2]] * if d[3] & 4 == 4 { -1.0 } else { 1.0 }];
             let qf = subr[d[4]];
             let tf = TRANS[d[5]];
@@ -187,8 +193,8 @@ macro_rules! srt2 {
     ($rep:ident, $S:ident, $eps:expr, $V2:ident, $M2:ident, [$($T:ident),*], [$($A:ident),*]) => {{
         let eps: f64 = $eps;
         let nang: u64 = if $rep.thorough() { 256 } else { 64 };
-        $rep.sweep(&format!("{}/2-D SRT/100 scales x {nang} angles x 5 translations", stringify!($S)), 100 * nang * 5, |idx, acc| {
-            let d = digits(idx, [5, 5, 4, nang, 5]);
+        $rep.sweep(&format!("{}/2-D SRT/196 scales x {nang} angles x 5 translations", stringify!($S)), 196 * nang * 5, |idx, acc| {
+            let d = digits(idx, [7, 7, 4, nang, 5]);
             let sf = [MAGS[d[0]] * if d[2] & 1 == 1 { -1.0 } else { 1.0 }, MAGS[d[1]] * if d[2] & 2 == 2 { -1.0 } else { 1.0 }];
             let ang = (-3.1 + 6.2 * d[3] as f64 / nang as f64 + 0.003) as $S;
             let tf = TRANS[d[4]];
@@ -236,7 +242,7 @@ macro_rules! srt2 {
 fn main() {
     let mut rep = Report::new("C10", "exploration");
     silence_panics();
-    rep.rule("cases = (type, scale from {1e-3,.5,1,2,1e3}^n x all 2^n sign patterns, rotation from a ROT sub-family covering all matrix->quaternion branches / angle grid in 2-D, 5 translations): constructors vs the f64 product T*R*S of the stored parameters (translation column bit-exact, linear block within K*eps*|scale|), product of elementary constructors, decomposition: translation = last column (bits), unit rotation, sign(scale.x) = sign(det), |scale| recovered, recomposition reproduces the matrix; every case non-trivial");
+    rep.rule("cases = (type, scale from {1e-3,.5,1-5e-5,1,1+3e-5,2,1e3}^n x all 2^n sign patterns, rotation from a ROT sub-family covering all matrix->quaternion branches / angle grid in 2-D, 5 translations): constructors vs the f64 product T*R*S of the stored parameters (translation column bit-exact, linear block within K*eps*|scale|), product of elementary constructors, decomposition: translation = last column (bits), unit rotation, sign(scale.x) = sign(det), |scale| recovered, recomposition reproduces the matrix; every case non-trivial");
     srt3!(rep, f32, EPS32, Quat, Vec3, Mat3, [Mat4, Affine3A]);
     srt3!(rep, f64, EPS64, DQuat, DVec3, DMat3, [DMat4, DAffine3]);
     srt2!(rep, f32, EPS32, Vec2, Mat2, [Mat3, Mat3A, Affine2], [Affine2]);
